@@ -110,6 +110,13 @@ UNITS.append(dict(name="c12_user_atlas_clear", template="C12/atlas_clear.c", mod
                                        (r"for \(auto anchor : anchors_\)\s*newChart\(anchor\);", "for (unsigned a_ = 0; a_ < anchors_n; ++a_) NEW_CHART();", 0), (r"ConstrainedStateSpace::clear\(\);", "", 0)])],
                   canaries=[dict(name="neighbours_kept", where="body:clear", rx=r"nn_n = 0;", repl="")]))
 
+# ---------------------------------------------------------------- KPIECE's Discretization (anchor of this property): cell selection follows the CURRENT cell weights --
+# every change of a cell's score / coverage / selection count is re-sorted into the queues before the next selection (units of C13)
+import copy as _copy, importlib.util as _ilu, os as _os
+_s13 = _ilu.spec_from_file_location("c13", _os.path.join(_os.path.dirname(__file__), "C13.py")); _C13 = _ilu.module_from_spec(_s13); _s13.loader.exec_module(_C13)
+for _u in _C13.KP_UNITS:
+    if "disc_" in _u["name"]:
+        _v = _copy.deepcopy(_u); _v["name"] = _v["name"].replace("c13_", "c12_"); UNITS.append(_v)
 ASSUMPTIONS = [
     "weights are exact integers (machine arithmetic treated as mathematical): floating-point rounding drift of the running sums after long edit histories is NOT decided",
     "r*total is modelled as ANY exact value in [0,total] (0 for r==0, total for r==1, strictly inside for 0<r<1, total>0); with all weights even, odd values stand for non-integer reals",
